@@ -3,3 +3,4 @@ import AeicModel.Wire
 import AeicModel.Generated.Constants
 import AeicModel.Store
 import AeicModel.Merge
+import AeicModel.ThreadGuard
